@@ -6595,7 +6595,7 @@ tsk_tree_seek(tsk_tree_t *self, double x, tsk_flags_t options)
     int ret = 0;
     const double L = tsk_treeseq_get_sequence_length(self->tree_sequence);
 
-    if (x < 0 || x >= L) {
+    if (!(x >= 0 && x < L)) {
         ret = tsk_trace_error(TSK_ERR_SEEK_OUT_OF_BOUNDS);
         goto out;
     }
